@@ -12,28 +12,28 @@ TARGETS = {
 PROP = {
     "subchecks": [
         {"target": "c08_handles_rc", "sub": "cabinet", "env": _ENV,
-         "quick": {"cases": 25000, "max_size": 150, "workers": 3},
+         "quick": {"cases": 15000, "max_size": 150, "workers": 3},
          "thorough": {"cases": 300000, "max_size": 300, "workers": 3}},
         {"target": "c08_handles_rc", "sub": "pool", "env": _ENV,
-         "quick": {"cases": 25000, "max_size": 120, "workers": 3},
+         "quick": {"cases": 15000, "max_size": 120, "workers": 3},
          "thorough": {"cases": 300000, "max_size": 250, "workers": 3}},
         {"target": "c08_handles_rc", "sub": "fd", "env": _ENV,
-         "quick": {"cases": 32000, "max_size": 150, "workers": 3},
+         "quick": {"cases": 20000, "max_size": 150, "workers": 3},
          "thorough": {"cases": 300000, "max_size": 300, "workers": 3}},
         {"target": "c08_handles_rc", "sub": "lifetime_tag", "env": _ENV,
-         "quick": {"cases": 64000, "max_size": 150, "workers": 3},
+         "quick": {"cases": 40000, "max_size": 150, "workers": 3},
          "thorough": {"cases": 600000, "max_size": 300, "workers": 3}},
         {"target": "c08_handles_fuzz", "sub": "cabinet", "env": _ENV,
-         "quick": {"runs": 200000, "max_len": 600, "workers": 1, "unit_timeout": 60},
+         "quick": {"runs": 120000, "max_len": 600, "workers": 1, "unit_timeout": 60},
          "thorough": {"runs": 800000, "max_len": 1500, "workers": 1, "unit_timeout": 60}},
         {"target": "c08_handles_fuzz", "sub": "pool", "env": _ENV,
-         "quick": {"runs": 60000, "max_len": 400, "workers": 1, "unit_timeout": 60},
+         "quick": {"runs": 40000, "max_len": 400, "workers": 1, "unit_timeout": 60},
          "thorough": {"runs": 100000, "max_len": 1000, "workers": 1, "unit_timeout": 60}},
         {"target": "c08_handles_fuzz", "sub": "fd", "env": _ENV,
-         "quick": {"runs": 160000, "max_len": 500, "workers": 1, "unit_timeout": 60},
+         "quick": {"runs": 100000, "max_len": 500, "workers": 1, "unit_timeout": 60},
          "thorough": {"runs": 600000, "max_len": 1200, "workers": 1, "unit_timeout": 60}},
         {"target": "c08_handles_fuzz", "sub": "lifetime_tag", "env": _ENV,
-         "quick": {"runs": 320000, "max_len": 500, "workers": 1, "unit_timeout": 60},
+         "quick": {"runs": 200000, "max_len": 500, "workers": 1, "unit_timeout": 60},
          "thorough": {"runs": 1500000, "max_len": 1200, "workers": 1, "unit_timeout": 60}},
     ],
     "assumptions": [
